@@ -406,13 +406,17 @@ TinySession(ds, tws, ks, adt, m) ==
                              ELSE << OpVerify(1, msg, 1), OpAdapt(2, 1, NBytes(FromNat(adt)), 1), OpVerifyE(2, msg, 1, ok),
                                      OpExtractE(2, 1, 1, NBytes(FromNat(adt))) >>))
 NegK(k) == IF ((NN - k) % NN) = 0 THEN 1 ELSE ((NN - k) % NN)
+\* quick tier: every key pair, every nonce pair of signer 1 against the cancelling nonces of signer 2, every tweak residue
+\* (also as a second tweak), every adaptor; the thorough tier takes the larger products
 TinyCases ==
-       { << "tk", d1, d2, nv, tw >> : d1 \in Res, d2 \in Res \cup {0}, nv \in 1..2, tw \in 0..2 }
-  \cup { << "tn", kv, a1, a2, m >> : kv \in 1..2, a1 \in Res, a2 \in Res, m \in 1..4 }
-  \cup { << "tt", x1, t1, x2, t2 >> : x1 \in 0..1, t1 \in Res \cup {0, NN, NN + 1}, x2 \in 0..1, t2 \in Res \cup {0, NN, NN + 1} }
+       { << "tk", d1, d2, nv, tw >> : d1 \in Res, d2 \in Res \cup {0}, nv \in IF Thorough THEN 1..2 ELSE {1}, tw \in 0..2 }
+  \cup { << "tn", kv, a1, a2, m >> : kv \in IF Thorough THEN 1..2 ELSE {1}, a1 \in Res, a2 \in Res, m \in 1..4 }
+  \cup { << "tn", 2, a1, a2, 3 >> : a1 \in Res, a2 \in Res }
+  \cup { << "tt", x1, t1, x2, t2 >> : x1 \in 0..1, t1 \in Res \cup {0, NN, NN + 1}, x2 \in 0..1,
+                                       t2 \in IF Thorough THEN Res \cup {0, NN, NN + 1} ELSE {0, 1, NN - 2, NN} }
   \cup { << "tt1", x1, t1 >> : x1 \in 0..1, t1 \in Res \cup {0, NN, NN + 1} }
-  \cup { << "ta", t, a1, bm >> : t \in Res, a1 \in Res, bm \in 1..3 }
-  \cup { << "t3", d1, d2, d3 >> : d1 \in {1, 4}, d2 \in Res, d3 \in Res }
+  \cup { << "ta", t, a1, bm >> : t \in Res, a1 \in Res, bm \in IF Thorough THEN 1..3 ELSE 1..2 }
+  \cup { << "t3", d1, d2, d3 >> : d1 \in IF Thorough THEN {1, 4} ELSE {4}, d2 \in Res, d3 \in Res }
 ExpandTiny(c) ==
   CASE c[1] = "tk" -> LET ds == IF c[3] = 0 THEN << c[2] >> ELSE << c[2], c[3] >>
                           ks == IF c[4] = 1 THEN << <<2, K(7)>>, <<5, 3>> >> ELSE << <<NN - 1, 1>>, <<4, NN - 2>> >>
@@ -452,11 +456,11 @@ Next == Pick \/ Eval
 \* (1) the verdicts the property demands: own partial signatures verify, foreign ones (other key, other nonce,
 \*     other session, mutated) do not, the aggregate is a valid BIP-340 signature for the tweaked aggregate key,
 \*     adapt and extract are inverse
-InvExp == phase = "done" => ExpOK(rec.in.steps, rec.out.res)
+InvExp == phase \in { "done", "sdone" } => ExpOK(rec.in.steps, rec.out.res)
 \* (2) the counter nonce generator is injective on the counter pool (2^32 apart => different nonces)
 InvCtr == (phase = "done" /\ cur[1] = "ctr") =>
             \A i, j \in 2..Len(rec.out.res) : i # j => rec.out.res[i].pubnonce # rec.out.res[j].pubnonce
-Emit == phase = "done" => EmitRecord(rec)
+Emit == phase \in { "done", "sdone" } => EmitRecord(rec)
 
 -----------------------------------------------------------------------------
 \* The multi-signer session machine.  cur = the protocol state: abstract client state st, the steps taken
@@ -468,19 +472,22 @@ Emit == phase = "done" => EmitRecord(rec)
 \*   Process          after NonceAgg, KeyAgg and all tweaks
 \*   Sign i           after Process, signers in any order
 \*   SigAgg           after all Sign; then the verification steps are appended and the run is emitted.
-\* cfg: [ ds (key scalars), tws (<< xonly, tweak32 >>), msg, adt (adaptor scalar or Zero), inj (<< k1, k2 >> per signer, or << >> = nonce_gen) ]
+\* cfg: [ ds (key scalars), tws (<< xonly, tweak32 >>), msg, adt (adaptor scalar or Zero), inj (<< k1, k2 >> per signer, or << >> = nonce_gen),
+\*        wcs (which choices a nonce generation after KeyAgg has: 1 = pass the cache, 0 = do not) ]
 SessCfgsReal ==
-  { [ ds |-> << KeyOf(4), KeyOf(5) >>, tws |-> << << 1, Rnd32(51) >> >>, msg |-> Rnd32(52), adt |-> Zero, inj |-> << >> ] }
-  \cup (IF Thorough THEN { [ ds |-> << KeyOf(4), KeyOf(4), KeyOf(6) >>, tws |-> << << 1, Rnd32(53) >>, << 0, Rnd32(54) >> >>, msg |-> Rnd32(55),
-                             adt |-> RndScalar(56), inj |-> << >> ] } ELSE { })
+  IF Thorough
+  THEN { [ ds |-> << KeyOf(4), KeyOf(5) >>, tws |-> << << 1, Rnd32(51) >> >>, msg |-> Rnd32(52), adt |-> Zero, inj |-> << >>, wcs |-> { 0, 1 } ],
+         [ ds |-> << KeyOf(4), KeyOf(4), KeyOf(6) >>, tws |-> << << 1, Rnd32(53) >>, << 0, Rnd32(54) >> >>, msg |-> Rnd32(55),
+           adt |-> RndScalar(56), inj |-> << >>, wcs |-> { 1 } ] }
+  ELSE { [ ds |-> << KeyOf(4), KeyOf(5) >>, tws |-> << << 1, Rnd32(51) >> >>, msg |-> Rnd32(52), adt |-> RndScalar(56), inj |-> << >>, wcs |-> { 1 } ] }
 SessCfgsTiny ==
   { [ ds |-> << FromNat(3), FromNat(5) >>, tws |-> << << 1, NBytes(FromNat(4)) >>, << 0, NBytes(FromNat(2)) >> >>, msg |-> TMsg(7), adt |-> Zero,
-      inj |-> << << FromNat(2), FromNat(K(6)) >>, << FromNat(5), FromNat(3) >> >> ],
+      inj |-> << << FromNat(2), FromNat(K(6)) >>, << FromNat(5), FromNat(3) >> >>, wcs |-> { 0 } ],
     [ ds |-> << FromNat(4), FromNat(4) >>, tws |-> << << 1, NBytes(FromNat(1)) >> >>, msg |-> TMsg(8), adt |-> FromNat(5),
-      inj |-> << << FromNat(1), FromNat(3) >>, << FromNat(NN - 1), FromNat(2) >> >> ] }
+      inj |-> << << FromNat(1), FromNat(3) >>, << FromNat(NN - 1), FromNat(2) >> >>, wcs |-> { 0 } ] }
   \cup (IF Thorough THEN { [ ds |-> << FromNat(2), FromNat(6), FromNat(2) >>, tws |-> << << 1, NBytes(FromNat(3)) >>, << 1, NBytes(FromNat(5)) >> >>,
                              msg |-> TMsg(9), adt |-> Zero,
-                             inj |-> << << FromNat(2), FromNat(3) >>, << FromNat(4), FromNat(1) >>, << FromNat(6), FromNat(5) >> >> ] } ELSE { })
+                             inj |-> << << FromNat(2), FromNat(3) >>, << FromNat(4), FromNat(1) >>, << FromNat(6), FromNat(5) >> >>, wcs |-> { 0 } ] } ELSE { })
 SessCfgs == SessCfgsReal
 
 MS0(cfg) == [ cfg |-> cfg, pks |-> Tup([i \in 1..Len(cfg.ds) |-> PkOf(cfg.ds[i])]), st |-> St0, steps |-> << >>, res |-> << >>, agg |-> FALSE, tw |-> 0, ng |-> { }, na |-> FALSE, pr |-> FALSE, sg |-> { }, sa |-> FALSE ]
@@ -497,7 +504,7 @@ MSSucc(ms) ==
                        THEN OpNonceGen(i, Rnd32(60 + i), pks[i], 3 + (4 * wc) + (8 * (i % 2)), NBytes(cfg.ds[i]), cfg.msg, 1, Rnd32(70 + i))
                        ELSE OpNonceGenCtr(i, Cnt8(Add(Pow2(32), FromNat(i))), NBytes(cfg.ds[i]), 2 + (4 * wc), cfg.msg, 1, Rnd32(70 + i)))
            EXCEPT !.ng = ms.ng \cup { i } ]
-         : i \in (1..n) \ ms.ng, wc \in IF ms.agg /\ Len(cfg.inj) = 0 THEN { 0, 1 } ELSE { 0 } }
+         : i \in (1..n) \ ms.ng, wc \in IF ms.agg /\ Len(cfg.inj) = 0 THEN cfg.wcs ELSE { 0 } }
   \cup { [ MSApply(ms, OpNonceAgg(1, [i \in 1..n |-> i])) EXCEPT !.na = TRUE ] : z \in IF ms.ng = 1..n /\ ~ms.na THEN { 1 } ELSE { } }
   \cup { [ MSApply(ms, OpProcess(1, 1, cfg.msg, 1, MSAdaptor(cfg))) EXCEPT !.pr = TRUE ]
          : z \in IF ms.na /\ ms.agg /\ ms.tw = Len(cfg.tws) /\ ~ms.pr THEN { 1 } ELSE { } }
@@ -510,19 +517,21 @@ MSFinal(ms) ==
       ok == IF ms.st.s[1].rinf THEN 0 ELSE 1
       t32 == NBytes(cfg.adt) IN
      [i \in 1..n |-> OpPsVerifyE(i, i, pks[i], 1, 1, 1)]
-  \o (IF n >= 2 THEN (IF real THEN << OpPsVerifyE(1, 2, pks[2], 1, 1, 0), OpPsVerifyE(2, 1, pks[1], 1, 1, 0) >>
+  \o (IF n >= 2 THEN (IF real THEN << OpPsVerifyE(1, 2, pks[2], 1, 1, 0) >>
                       ELSE << OpPsVerify(1, 2, pks[2], 1, 1), OpPsVerify(2, 1, pks[1], 1, 1) >>) ELSE << >>)
   \o (IF IsZero(cfg.adt) THEN << OpVerifyE(1, cfg.msg, 1, ok) >>
       ELSE << OpVerify(1, cfg.msg, 1), OpAdapt(2, 1, t32, 1), OpVerifyE(2, cfg.msg, 1, ok), OpExtractE(2, 1, 1, t32) >>)
 SInit == phase = "run" /\ rec = << >> /\ \E cfg \in SessCfgs : cur = MS0(cfg)
 SStep == phase = "run" /\ ~cur.sa /\ \E m \in MSSucc(cur) : cur' = m /\ phase' = "run" /\ rec' = << >>
-SDone == phase = "run" /\ cur.sa /\ phase' = "done" /\ cur' = cur
+SDone == phase = "run" /\ cur.sa /\ phase' = "sdone" /\ cur' = cur
          /\ LET fin == MSFinal(cur) IN
             rec' = [ e |-> "MusigProg", in |-> [ steps |-> cur.steps \o fin ],
                      out |-> [ res |-> RunFrom(fin, 1, cur.st, cur.res)[2], icb |-> 0 ] ]
 SNext == SStep \/ SDone
-\* the demanded verdicts hold in every complete run, whatever the order of the steps was
-InvSess == phase = "done" => ExpOK(rec.in.steps, rec.out.res)
+\* InvExp on the complete runs says: the demanded verdicts hold whatever the order of the steps was.
+\* Both generators in one TLC run (their phases are disjoint):
+InitAll == Init \/ SInit
+NextAll == Next \/ SNext
 
 -----------------------------------------------------------------------------
 \* T direction: programs recorded from the implementation; every specified result field must be present and
